@@ -249,10 +249,20 @@ class CallMixin:
       return self.call_with_splat(e, st)
     kwnames = [k.arg for k in e.keywords]
     parts = [e.func] + list(e.args) + [k.value for k in e.keywords]
+    # `recv.m(...)` overridden by a contract whose first parameter is `self`: the contract
+    # receives the receiver object (same convention as call_with_splat)
+    cur = self.ctr_stack[-1] if getattr(self, 'ctr_stack', None) else self.ctr
+    src = ast.unparse(e.func)
+    as_method = (isinstance(e.func, ast.Attribute) and src in cur.calls and
+                 (C.REGISTRY[cur.calls[src]].params or [None])[0] == 'self')
+    if as_method:
+      parts[0] = e.func.value
     def k(st2, vals):
       f = vals[0]
       pos = vals[1:1 + len(e.args)]
       kw = dict(zip(kwnames, vals[1 + len(e.args):]))
+      if as_method:
+        return self.call_named_contract(cur.calls[src], [f] + pos, kw, st2, e)
       return self.do_call(f, pos, kw, st2, e)
     return self.then(self.ev_list(parts, st), k)
 
@@ -858,7 +868,30 @@ class CallMixin:
         else:
           out.append(self.exc_res(s2, 'KeyError', origin=f'pop@{node.lineno}'))
       return out
-    return self.class_fork(recv, st, [(('dict',), go)], node, '.pop()')
+    def go_list(s):
+      """list.pop([i]) — shifts the later elements down."""
+      r = ref(recv)
+      h = s.heap
+      n = h.len(r)
+      idx = pos[0] if pos else VInt(n - 1)
+      def k(s2, iv):
+        j = self.norm_index(iv, n)
+        out = []
+        for s3, ok in self.fork(s2, z3.And(0 <= j, j < n)):
+          if not ok:
+            out.append(self.exc_res(s3, 'IndexError', origin=f'pop@{node.lineno}'))
+            continue
+          h3 = s3.heap
+          i = z3.Int('pp_i')
+          old = h3.eltarr(r)
+          new = fresh('pop', ValArr)
+          fact = SAFE_FORALL([i], new[i] == z3.If(i < j, old[i], old[i + 1]), patterns=[new[i]])
+          h3 = h3.set('lelt', z3.Store(h3.get('lelt'), r, new))
+          h3 = h3.set('llen', z3.Store(h3.get('llen'), r, n - 1))
+          out.append(Res(s3.with_heap(h3).assume(fact), old[j]))
+        return out
+      return self.with_int(idx, s, k, 'list.pop index')
+    return self.class_fork(recv, st, [(('dict',), go), (('list',), go_list)], node, '.pop()')
 
   def me_setdefault(self, recv, pos, kw, st, node):
     trusted('dict.setdefault')
